@@ -909,12 +909,28 @@ class C09(RunSpec):
             p["sprout"] = _cycle(["simple", "custom"], idx // 4)
             p["level_limit"] = rng.randint(3, 4)
             p["lscs"] = ["dontstop"]
+        if idx % 10 in (1, 7) and idx % 4 != 3 and idx % 6 != 2:
+            # distances in a norm other than the Euclidean one, in 6-8 dimensions, with many siblings: which sibling is "nearest" depends
+            # on the norm, and every considered deme counts - not only the (Euclidean-)nearest one
+            p.update({"dim": (6, 8), "n_levels": 2, "root": _cycle(["sea", "de", "sea_cx"], idx // 10), "leaf": _cycle(["sea", "cma", "de"], idx // 10), "sprout": "custom",
+                      "level_limit": 8, "lscs": ["dontstop"], "fams": ["rastrigin", "funnel"], "boxes": ["sym"], "free_lscs": True, "hibernation": False, "stacks": False})
         return p
 
     def make_case(self, seed, idx, tier):
         d = super().make_case(seed, idx, tier)
         if d["gsc"]["k"] == "melimit":
             d["gsc"]["n"] = max(d["gsc"]["n"], 6)
+        if idx % 10 in (1, 7) and idx % 4 != 3 and idx % 6 != 2 and d.get("kind") == "tree" and not d.get("reuse"):
+            rmin = min(b[1] - b[0] for b in d["box"]["bounds"])
+            o = ["inf", 1, "inf", 3][(idx // 10) % 4]
+            thr = rmin * {"inf": 0.12, 1: 0.45, 3: 0.2}[o]
+            d["sprout"] = {"k": "custom", "gen": {"k": "nbc", "df": 0.5, "trunc": 1.0}, "dfilters": [{"k": "far", "d": thr, "ord": o}, {"k": "demelimit", "n": 5}],
+                           "tfilters": [{"k": "levellimit", "n": 10}], "ll": 10}
+            d["levels"][0]["pop"] = 24
+            d["levels"][0]["lsc"] = {"k": "dontstop"}
+            d["levels"][1]["lsc"] = {"k": "melimit", "n": 2 + (idx // 10) % 2}  # slots keep freeing: sprouting goes on through the whole run
+            d["levels"][1]["gens"] = 1
+            d["gsc"] = {"k": "melimit", "n": 16}
         if idx % 6 == 2 and idx % 4 != 3:
             # truncation keeps exactly one individual of every (small) non-leaf population
             for lv in d["levels"][:-1]:
@@ -944,6 +960,8 @@ class C09(RunSpec):
             ("C09.accepted.nbcfar", 1, "seed accepted by NBC_FarEnough"),
             ("C09.rejected.FarEnough", 1, "seed rejected by FarEnough"),
             ("C09.rejected.NBC_FarEnough", 1, "seed rejected by NBC_FarEnough"),
+            ("C09.candidates_whose_nearest_sibling_depends_on_the_norm", 100, "candidates handed to a distance filter with a non-Euclidean norm whose nearest considered deme differs between that norm and the Euclidean one"),
+            ("C09.candidates_rejected_only_because_of_a_sibling_that_is_not_the_euclidean_nearest", 5, "candidates that are too close (in the configured norm) to a considered deme other than their Euclidean-nearest one, which itself is far enough"),
             ("C09.nbc_mean_distance_not_finite", 1, "round in which truncation kept a single individual (undefined threshold)"),
         ]
         return fl
